@@ -18,7 +18,9 @@ CONFIG = {
     "rule": ("ages: exactly-ultrametric trees from dyadic node heights (1-10 leaves quick / <= 40 thorough; polytomies, "
              "unifurcations, zero-length edges, optional root-edge length; a minority with general-float heights = "
              "ultrametric up to rounding) x ultrametricity_precision {default, 1e-9, 1e-7, 1e-5, 1e-3, 1e-2, 0.25, 1.0, 0, 0.0, "
-             "None, False, -1, -1e-9} x forcing {none, max, min} x perturbation {none; ONE edge (tip or clade) shifted by p/4, p/2, p "
+             "None, False, -1, -1e-9} x forcing {none, max, min} x whole-case length SCALE {1, 2^-30, 2^-20, 2^-10, 2^10, 2^20, 1e-9, 1e-6, 1e-3, 1e3, 1e6} (lengths, "
+             "shifts, tip ages, minimum_edge_length and numeric precision all multiplied; tolerances relative to the tree "
+             "height) x perturbation {none; ONE edge (tip or clade) shifted by p/4, p/2, p "
              "(dyadic p only), 2p or 10p; TWO edges shifted in opposite directions by 0.6p..1.5p each} x route "
              "{calc_node_ages (all / internal only), node_ages (all / internal only), internal_node_ages, "
              "calc_node_ages with set_node_age_fn giving non-contemporaneous dyadic tip ages} followed by "
@@ -77,8 +79,25 @@ DEFAULT_PRECISION = 1e-5   # documented value of constants.DEFAULT_ULTRAMETRICIT
 # plain-data helpers
 # ---------------------------------------------------------------------------
 
+def all_exact(values):
+    """All values are integer multiples of one power of two q and sum(|v|)/q < 2**52: every sum or difference the tree
+    can produce from them is then exact in a double, whatever the overall scale."""
+    vals = [float(v) for v in values if v]
+    if not vals:
+        return True
+    lowest = None
+    for v in vals:
+        if v != v or abs(v) == float("inf"):
+            return False
+        num, den = abs(v).as_integer_ratio()
+        e = (num & -num).bit_length() - 1 - (den.bit_length() - 1)     # exponent of the lowest set bit
+        lowest = e if lowest is None or e < lowest else lowest
+    total = sum(abs(v) for v in vals)
+    return total != float("inf") and math.frexp(total)[1] - lowest <= 52    # total < 2**(lowest + 52), no overflow
+
+
 def is_exact(x):
-    """x is a binary fraction small enough that every sum/difference the tree can produce is exact in a double."""
+    """Single value on the unit scale (kept for values that are not part of a scaled tree)."""
     return x == 0 or (abs(x) < 4096.0 and float(x * 1099511627776.0).is_integer())
 
 
@@ -92,6 +111,11 @@ def prec_info(prec):
     if prec < 0:
         return kw, None
     return kw, float(prec)
+
+
+def rclose(a, b, scale, tol=1e-12):
+    """Purely relative closeness (no absolute floor): for trees whose whole scale may be 1e-9 or 1e6."""
+    return a == b or abs(a - b) <= tol * (abs(a) + abs(b) + abs(scale))
 
 
 def close(a, b, scale=0.0, tol=1e-10):
@@ -197,6 +221,31 @@ def age_cases(draw, max_leaves):
         case["tip_ages"] = [h for h, s in zip(hs, shapes.spec_nodes(spec)) if not s["ch"]]
         case["shifts"] = []
         case["force"] = None
+    return scale_age_case(case, draw(st.sampled_from(SCALES)))
+
+
+SCALES = [1.0, 1.0, 1.0, 2.0 ** -30, 2.0 ** -20, 2.0 ** -10, 2.0 ** 10, 2.0 ** 20, 1e-9, 1e-6, 1e-3, 1e3, 1e6]
+
+
+def scale_age_case(case, k):
+    """The whole case multiplied by k: every length, shift, handed-in tip age, minimum_edge_length and the (numeric,
+    positive) precision, so the precision keeps its position relative to the tree.  Powers of two keep every sum exact."""
+    case["scale"] = k
+    if k == 1.0:
+        return case
+    for x in shapes.spec_nodes(case["spec"]):
+        if x["len"] is not None:
+            x["len"] = x["len"] * k
+    case["shifts"] = [[i, d * k] for i, d in case["shifts"]]
+    if "tip_ages" in case:
+        case["tip_ages"] = [a * k for a in case["tip_ages"]]
+    pr = case["prec"]
+    if isinstance(pr, float) and pr > 0:
+        case["prec"] = pr * k
+    if isinstance(case["min_len"], float) and case["min_len"] > 0:
+        case["min_len"] = case["min_len"] * k
+    if case["scramble"]:
+        case["scramble"] = case["scramble"] * k
     return case
 
 
@@ -366,12 +415,12 @@ def rounding_band(rt, H):
     """Bound on the disagreement between two float evaluations of a root-to-tip spread: each side accumulates at most
     (depth) additions of magnitude <= H, each off by <= 2**-53 relative; 8x margin."""
     depth = max(rt.depth_edges(i) for i in rt.leaves())
-    return 8 * 2.2e-16 * (1.0 + H) * (1 + depth)
+    return 8 * 2.2e-16 * H * (1 + depth)
 
 
 def tree_is_exact(rt, extra=()):
     vals = [rt.length[i] for i in rt.nodes() if i != rt.root] + list(extra)
-    return all(is_exact(v) for v in vals)
+    return all_exact(vals)
 
 
 def ns_class(ctx, case, prefix):
@@ -481,11 +530,14 @@ def check_ages(ctx, case):
     must_reject = checked and spread > p + band
     must_accept = (not checked) or spread <= p - band
     ultrametric = spread <= band
-    ctx.cls("ages:prec:%s" % ("disabled" if p is None else "0" if p == 0 else repr(prec)))
+    ctx.cls("ages:prec:%s" % ("disabled" if p is None else "0" if p == 0 else "default" if prec == "default" else
+                              "%g x scale" % (p / case.get("scale", 1.0))))
     ctx.cls("ages:force:%s" % force)
     ctx.cls("ages:route:%s" % route)
     ctx.cls("ages:family:%s" % ("exact" if not case["shifts"] else "one_shift" if len(case["shifts"]) == 1 else "two_shifts"))
     ctx.cls("ages:heights:%s" % case["heights"])
+    k = case.get("scale", 1.0)
+    ctx.cls("ages:scale:%s" % ("1" if k == 1.0 else ("2^%d" % round(math.log(k, 2))) if all_exact([k]) and k not in (1e3, 1e6) else "%g" % k))
     shape_classes(ctx, pre, "ages")
     ns_class(ctx, case, "ages")
     if checked and not must_reject and not must_accept:
@@ -553,14 +605,14 @@ def check_ages(ctx, case):
         a = ages[i]
         if force == "max" or force == "min":
             want = hi[i] if force == "max" else lo[i]
-            ok = a == want if exact else close(a, want, H, 1e-12)
+            ok = a == want if exact else rclose(a, want, H, 1e-12)
             ctx.check(ok, "forced_age_is_%s_over_children" % force, "C17.forced_age:" + force,
                       lambda: "node over %s: age %r want %r; %s" % (sorted(pre.clusters()[i]), a, want, tag))
         elif ultrametric and exact:
             ctx.check(a == hi[i], "age_is_distance_to_descendant_tips", "C17.age_exact",
                       lambda: "node over %s: age %r want %r; %s" % (sorted(pre.clusters()[i]), a, hi[i], tag))
         else:
-            slack = band + 1e-12 * (1.0 + H)
+            slack = band + 1e-12 * H
             ctx.check(lo[i] - slack <= a <= hi[i] + slack, "age_between_nearest_and_farthest_descendant_tip",
                       "C17.age_range", lambda: "node over %s: age %r not in [%r, %r]; %s" % (
                           sorted(pre.clusters()[i]), a, lo[i], hi[i], tag))
@@ -603,10 +655,10 @@ def check_ages(ctx, case):
         if not ctx.check(isinstance(g, (int, float)) and not isinstance(g, bool), "restored_length_is_a_number",
                          "C17.restore_lengths", lambda: "edge above %s: %r; %s" % (sorted(pre.clusters()[i]), g, tag)):
             return
-        if ultrametric and exact and (m is None or is_exact(m)):
+        if ultrametric and exact and (m is None or all_exact(list(orig[1:]) + [m])):
             ok = g == want
         else:
-            ok = abs(g - want) <= spread + band + 1e-12 * (1.0 + H)
+            ok = abs(g - want) <= spread + band + 1e-12 * H      # relative to the tree height, no absolute floor
         ctx.check(ok, "set_edge_lengths_from_node_ages_restores_lengths", "C17.restore_lengths",
                   lambda: "edge above %s: got %r want %r (min_len %r, spread %r); %s" % (
                       sorted(pre.clusters()[i]), g, want, case["min_len"], spread, tag))
@@ -631,7 +683,7 @@ def check_depth_functions(ctx, tree, rt, leafonly, attr, tag):
         q = rt.parent[i]
         dep[i] = 0.0 if q is None else dep[q] + rt.obj[i]._edge.length
     H = max(dep.values())
-    exact = all(is_exact(rt.obj[i]._edge.length) for i in nodes if i != rt.root)
+    exact = all_exact([rt.obj[i]._edge.length for i in nodes if i != rt.root])
 
     def same(a, b):
         return a == b if exact else close(a, b, H, 1e-12)
@@ -680,8 +732,9 @@ def check_lineages(ctx, tree, rt, dsel, node_depths_too, tag):
     values = sorted(set(dep.values()))
     pts = []
     for a, b in zip(values, values[1:]):
-        if b - a > 1e-9 * (1.0 + abs(b)):
-            pts.append(("mid", a + (b - a) / 2.0))
+        mid = a + (b - a) / 2.0
+        if b - a > 1e-9 * abs(b) and a < mid < b:       # (denormal gaps have no representable midpoint)
+            pts.append(("mid", mid))
     pts.append(("beyond", values[-1] + 1.0))
     if node_depths_too:
         for v in values[1:]:
